@@ -22,7 +22,7 @@ def run(ctx):
     behs = sc.tlc_schedules(ctx, "c16_sched", graphs, "KLim", fails="none", simulate=2500 if ctx.thorough else 300, seed=ctx.seed + 9)
     pick = ctx.rng.sample(behs, min(len(behs), 400 if ctx.thorough else 30))
     specs = sc.schedules_to_specs(pick, "cf")
-    obs = core.pmap(sc.run_and_trace, specs, procs=6, chunksize=1)
+    obs = core.tmap(sc.run_and_trace, specs, threads=8)
     items = sc.judge_runs(ctx, specs, obs, "C16")
     if items:
         ctx.sample({"graph": specs[0]["graph"], "K": specs[0]["K"], "order": specs[0]["order"], "body_events": [e for e in items[0][2] if e["a"] in ("S", "E")]})
